@@ -228,6 +228,9 @@ def assignM (acfg : AssignCfg) (dk : DynKind) (old : Val) (s : Src) (noBuf : Boo
           | some none => .inexact
           | none => .no)
      | _ => .no)
-  | .foreign => .no
+  | .foreign =>
+    -- AssignToInt / AssignToUint / AssignToFloat read the source before they look at the destination
+    if s.v.isNilPtr && (s.kind.family == .signed || s.kind.family == .unsigned || s.kind.family == .float || s.kind.family == .text) then .panic
+    else .no
 
 end Inspector
